@@ -296,6 +296,10 @@ struct WOp {
     /// not a write: `handle.truncate(ts)` ("everything stamped <= ts has been streamed to the object store")
     #[serde(default)]
     trunc: bool,
+    /// the write goes to a key that other writers are writing at the same moment (same group-commit batch): every
+    /// acknowledged write is its own durable entry, whichever of them the key ends up holding
+    #[serde(default)]
+    hot: bool,
 }
 
 #[derive(Clone, Debug, Serialize, Deserialize, PartialEq)]
@@ -320,7 +324,10 @@ fn make_delta(wi: usize, oi: usize, op: &WOp) -> ReplicationDelta {
     let mut clock = LamportClock { time, replica_id: rid };
     // hostile payload: zero bytes, 0xff, and text that looks like a WAL header / entry header
     let pat = b"RWAL\x01\x00\x00\x00\xff\xff\xff\xff\r\n";
-    let bytes: Vec<u8> = (0..op.size as usize).map(|i| pat[(i + wi * 7 + oi * 3) % pat.len()]).collect();
+    let mut bytes: Vec<u8> = (0..op.size as usize).map(|i| pat[(i + wi * 7 + oi * 3) % pat.len()]).collect();
+    if op.hot {
+        bytes.extend_from_slice(format!("#w{}o{}", wi, oi).as_bytes()); // keeps entries of the shared key distinguishable
+    }
     let mut v = match op.kind {
         3 => {
             let mut v = ReplicatedValue::with_crdt(CrdtValue::new_hash(), rid);
@@ -336,7 +343,7 @@ fn make_delta(wi: usize, oi: usize, op: &WOp) -> ReplicationDelta {
         v.expiry_ms = Some(op.ts.wrapping_add(1000));
         v.replication_factor = Some(3);
     }
-    ReplicationDelta::new(format!("w{}_{}", wi, oi), v, rid)
+    ReplicationDelta::new(if op.hot { "hot".to_string() } else { format!("w{}_{}", wi, oi) }, v, rid)
 }
 
 /// Independent statement of the on-disk entry (wal.rs file layout comment): len u32 | ts u64 | crc32 u32 | data.
@@ -733,6 +740,7 @@ fn gen_op(rng: &mut Rng, quiet: bool) -> WOp {
         size: gen_size(rng),
         faf: false,
         trunc: false,
+        hot: false,
     }
 }
 
@@ -760,6 +768,12 @@ fn gen_base(rng: &mut Rng, idx: u64) -> Spec {
             op.faf = rng.gen_range(0..4) == 0;
         }
     }
+    if rng.gen_range(0..3) == 0 {
+        // several writers on one key at the same instant
+        for op in writers.iter_mut().flatten() {
+            op.hot = rng.gen_range(0..2) == 0;
+        }
+    }
     if !structured && rng.gen_range(0..3) == 0 {
         // the streaming side reports progress: truncate(T) between the writes, T among the stamps in play, below and above them
         let stamps: Vec<u64> = writers.iter().flatten().map(|o| o.ts).collect();
@@ -772,7 +786,7 @@ fn gen_base(rng: &mut Rng, idx: u64) -> Spec {
                         1 => u64::MAX,
                         _ => stamps[rng.gen_range(0..stamps.len())],
                     };
-                    w.insert(k, WOp { yields: rng.gen_range(0..3), sleep_us: [0, 0, 3000, 10_000][rng.gen_range(0..4)], ts: t, kind: 0, size: 1, faf: false, trunc: true });
+                    w.insert(k, WOp { yields: rng.gen_range(0..3), sleep_us: [0, 0, 3000, 10_000][rng.gen_range(0..4)], ts: t, kind: 0, size: 1, faf: false, trunc: true, hot: false });
                     k += 1;
                 }
                 k += 1;
